@@ -442,6 +442,8 @@ CHECKS = {
         "runs": [
             {"harness": "HarnessC11Response", "grid": {"builder": [0, 1, 2]}, "params": {"cap": 2},
              "reach": ["c11:response-built"], "tier": "quick"},
+            {"harness": "HarnessC11Response", "grid": {"doc": [4, 5]}, "params": {"cap": 2, "builder": 1},
+             "reach": ["c11:response-built"], "tier": "quick"},
             {"harness": "HarnessC11Notification", "params": {"cap": 2}, "reach": ["c11:notification-built"], "tier": "quick"},
             {"harness": "HarnessC11Ping", "params": {"cap": 2}, "reach": ["c11:ping-handled"]},
             {"harness": "HarnessC11Response", "grid": {"builder": [0, 1, 2], "method": [0, 1, 2, 3, 4, 5, 6]},
